@@ -134,7 +134,11 @@ def run_far(seed, n, tier, ctx, si, sc):
             ctx.violation("minimum_formula", f"alpha={alpha}: {m}", {"alpha": alpha}, sig="minimum_formula")
         bad = None
         for nn in range(m, m + N + 1):
-            f = model._compute_conf_frac(nn, alpha)
+            try:
+                f = model._compute_conf_frac(nn, alpha)
+            except Exception as e:  # "no arithmetic ... failure can occur for any count at or above the minimum"
+                ctx.violation("far_split_exception", f"alpha={alpha} n={nn} (minimum {m}): {type(e).__name__}: {e}", {"alpha": alpha, "n": nn}, sig="far_split_exception")
+                break
             t = math.floor(nn * f)
             cal = nn - max(t, 1)
             if (t < 1 and nn > m + band) or cal < 1 or alpha * (1 + 1 / cal) > 1 + 1e-12:
@@ -241,6 +245,19 @@ def replay(case, ctx):
         band_point(NonparametricElectionModel if case["kind"] == "nonparametric" else GaussianElectionModel, case["alpha"], case["n"], ctx, case["kind"])
     elif "units" in case:
         check_gate(case, ctx)
+    elif "alpha" in case and "n" in case:
+        from elexmodel.models.NonparametricElectionModel import NonparametricElectionModel
+
+        ctx.evaluated()
+        try:
+            f = NonparametricElectionModel({})._compute_conf_frac(case["n"], case["alpha"])
+        except Exception as e:
+            ctx.violation("far_split_exception", f"alpha={case['alpha']} n={case['n']}: {type(e).__name__}: {e}", case, sig="far_split_exception")
+            return
+        t = math.floor(case["n"] * f)
+        cal = case["n"] - max(t, 1)
+        if cal < 1 or case["alpha"] * (1 + 1 / cal) > 1 + 1e-12:
+            ctx.violation("far_split_invalid", f"alpha={case['alpha']} n={case['n']} conf_frac={f} train={t} cal={cal}", case, sig="far_split_invalid")
 
 
 def facts(case):
